@@ -574,6 +574,45 @@ def check_fresh_slot(P, E, ctx):
     ctx.floor(rule, 5)
 
 
+def check_box_replace(P, ctx):
+    """A Box owns its pointee.  Outside the destructor a Box function may release the old pointee only when it is not the object
+    the Box will hold next: the release must be guarded by a comparison with every value stored into the Box afterwards (comparing
+    with the *argument* is not enough when the argument is itself a Box or Ref whose pointee is the old one)."""
+    rule = 'C05.box-replace'
+    u = P.units['src/Pointer.c']
+    destruct = P.slot('Box', 'New', 'destruct')
+    field = ('arrow', ('param', 0), 'val')
+    n_fn = 0
+    for fname, fn in sorted(u['functions'].items()):
+        if not fname.startswith('Box_') or fname == destruct or fn.get('body') is None or not fn['params']:
+            continue
+        g = P.cfg(fn)
+        NI = util.Norm(P, fn, expand_locals=True, inline=True)
+        n_fn += 1
+        ctx.fn(fn)
+        bad = None
+        for (dn, dc) in [(n, c) for (n, c) in g.nodes_calling('del')] + [(n, c) for (n, c) in g.nodes_calling('dealloc')]:
+            x = NI.canon(dc[2][0])
+            if x != field and not (x[0] == 'call' and ir.callee_name(x) == 'Box_Deref'):
+                continue
+            after = g.reach_from(dn['id'])
+            stores = [(n, c) for (n, c) in g.nodes_calling('Box_Ref') if n['id'] in after and NI.canon(c[2][0]) == ('param', 0) and not ir.is_null(c[2][1])]
+            for (sn, sc) in stores:
+                v = NI.canon(sc[2][1])
+                guards = [cn for cn in g.live() if cn['kind'] == 'cond' and NI.canon(cn['expr']) in (ir.canon(('bin', '!=', x, v)), ir.canon(('bin', '==', x, v)))]
+                ok = False
+                for cn in guards:
+                    ne = NI.canon(cn['expr'])[1] == '!='
+                    if g.must_pass(dn['id'], through_edges=[(cn['id'], ne)]):
+                        ok = True
+                if not ok:
+                    bad = bad or 'the old pointee is released at %s although %s, stored at %s, may be that same object' % (g.describe(dn), ir.fmt(v), g.describe(sn))
+            if not stores and not any(n['id'] in after and ir.is_null(c[2][1]) for (n, c) in g.nodes_calling('Box_Ref')):
+                bad = bad or 'the pointee is released at %s and the Box keeps pointing at it' % g.describe(dn)
+        ctx.check(bad is None, rule, fname, site(fn), 'outside the destructor the pointee is released only if it differs from what the Box holds afterwards', [bad] if bad else None)
+    ctx.floor(rule, 3)
+
+
 def run(ctx, load):
     P = load(UNITS, 'default')
     ctx.stats['units'] = set(UNITS)
@@ -615,6 +654,18 @@ def run(ctx, load):
     check_move_not_copy(P, E, ctx)
     check_clear_before_assign(P, E, ctx)
     check_fresh_slot(P, E, ctx)
+    check_box_replace(P, ctx)
+    # rotations and the removal fix-up neither drop nor duplicate a node (shape analysis shared with C03)
+    from .rules_c03 import check_rb_invariant, check_rb_operations
+    before = len(ctx.obs)
+    check_rb_invariant(P, ctx)
+    check_rb_operations(P, ctx)
+    for o in ctx.obs[before:]:
+        o['rule'] = 'C05.tree-moves-keep-every-node'
+    for k in list(ctx.floors):
+        if k[0].startswith('C03.'):
+            ctx.floors.pop(k)
+    ctx.floor('C05.tree-moves-keep-every-node', 9)
 
 
 EXPLANATION = (
